@@ -364,6 +364,28 @@ inline void Sweep::forms()
       add_other("make_designated_provision", n, [n, fd, sd, braced](Ck& c) { c.eq("elements.size", (long long)n->elements().size(), 2);
          auto it = n->elements().begin(); c.same("elements[0].subobject", &it->subobject(), static_cast<const cxx_form::Subobject_designator*>(fd)); c.same("elements[0].initializer", &it->initializer(), static_cast<const cxx_form::Initialization_provision*>(braced));
          ++it; c.same("elements[1].subobject", &it->subobject(), static_cast<const cxx_form::Subobject_designator*>(sd)); }); }
+   // a designated list that keeps growing: each member handed out by push_back stays where it is, and stays what it was, while
+   // further members are added (sizes past 8, 16, 32 ... - what a contiguous store would relocate at)
+   {  auto* n = reg.make_designated_provision();
+      auto held = std::make_shared<std::vector<std::tuple<const cxx_form::Earmarked_initializer*, const cxx_form::Subobject_designator*, const cxx_form::Initialization_provision*>>>();
+      const int members = 5 + int(rng.below(70));
+      for (int i = 0; i < members; ++i) {
+         const cxx_form::Subobject_designator* d = rng.chance(50) ? static_cast<const cxx_form::Subobject_designator*>(reg.make_field_designator(*rng.pick(P.idents))) : static_cast<const cxx_form::Subobject_designator*>(reg.make_slot_designator(P.X()));
+         const cxx_form::Initialization_provision* iv = rng.chance(50) ? static_cast<const cxx_form::Initialization_provision*>(braced) : static_cast<const cxx_form::Initialization_provision*>(reg.make_braced_provision());
+         auto* e = n->seq.push_back(*d, *iv);
+         held->emplace_back(e, d, iv);
+         // read it through the interface right away, as a client walking the list while it is being filled would
+         if (&*n->elements().position(std::size_t(i)) != static_cast<const cxx_form::Earmarked_initializer*>(e)) held->emplace_back(nullptr, d, iv);
+      }
+      add_other("make_designated_provision(grown member by member)", n, [n, held, members](Ck& c) {
+         c.eq("elements.size", (long long)n->elements().size(), members);
+         c.eq("members handed out", (long long)held->size(), members);
+         std::size_t i = 0;
+         for (auto& m : n->elements()) {
+            if (i >= held->size()) break;
+            auto& [e, d, iv] = (*held)[i++];
+            c.same("elements[i] (the member push_back handed out)", &m, e, A_OPERAND | A_IDENTITY); c.same("elements[i].subobject", &m.subobject(), d); c.same("elements[i].initializer", &m.initializer(), iv);
+         } }); }
    (void)L;
 }
 
